@@ -71,6 +71,22 @@ void _ZNSt9exceptionD2Ev(char* self) { (void)self; }
 
 #endif /* !VP_REAL */
 
+/* ---- memory primitives as byte loops (bound: --unwindset vp_memcpy.0:K etc., unwinding assertions on) ---- */
+#ifdef VP_NATIVE
+char* vp_memcpy(char* d, char* s, uint64_t n) { return memcpy(d, s, n); }
+char* vp_memmove(char* d, char* s, uint64_t n) { return memmove(d, s, n); }
+char* vp_memset(char* d, uint8_t c, uint64_t n) { return memset(d, c, n); }
+#else
+char* vp_memcpy(char* d, char* s, uint64_t n) { for (uint64_t i = 0; i < n; ++i) d[i] = s[i]; return d; }
+char* vp_memmove(char* d, char* s, uint64_t n) {
+  if (n == 0) return d;
+  if (!__CPROVER_same_object(d, s) || __CPROVER_POINTER_OFFSET(d) <= __CPROVER_POINTER_OFFSET(s)) { for (uint64_t i = 0; i < n; ++i) d[i] = s[i]; }
+  else { for (uint64_t i = n; i > 0; --i) d[i - 1] = s[i - 1]; }
+  return d;
+}
+char* vp_memset(char* d, uint8_t c, uint64_t n) { for (uint64_t i = 0; i < n; ++i) d[i] = (char)c; return d; }
+#endif
+
 /* ---- harness API (shim side: engine/vp.h) ---- */
 #ifndef VP_NATIVE
 uint8_t nondet_u8(void); uint16_t nondet_u16(void); uint32_t nondet_u32(void); uint64_t nondet_u64(void);
@@ -84,7 +100,11 @@ void vp_assume(uint32_t c) { __CPROVER_assume(c); }
 void vp_assert(uint32_t c, char* m) { (void)m; __CPROVER_assert(c, "vp_assert (message not constant)"); }
 void vp_observe(uint64_t v) { (void)v; }
 void vp_witness(void) { __CPROVER_assert(0, "VP_WITNESS reachable"); }
+void vp_accept(void) { __CPROVER_assert(0, "VP_ACCEPT reachable"); }
 int vp_native_mode(void) { return 0; }
+uint32_t vp_r_ok(char* p, uint32_t n) { return n == 0 || __CPROVER_r_ok(p, n); }
+uint32_t vp_w_ok(char* p, uint32_t n) { return n == 0 || __CPROVER_w_ok(p, n); }
+
 #else
 /* native: inputs from VP_INPUT file (one decimal per line), then xorshift seeded by VP_SEED */
 static FILE* vp_in; static int vp_in_open; static uint64_t vp_rng; static uint64_t vp_hash = 1469598103934665603ULL;
@@ -113,7 +133,11 @@ void vp_assume(uint32_t c) { vp_native_assume(c); }
 void vp_assert(uint32_t c, char* m) { vp_native_assert(c, m); }
 void vp_observe(uint64_t v) { vp_mix(v); }
 void vp_witness(void) { }
+void vp_accept(void) { }
 int vp_native_mode(void) { return 1; }
+uint32_t vp_r_ok(char* p, uint32_t n) { (void)p; (void)n; return 1; }
+uint32_t vp_w_ok(char* p, uint32_t n) { (void)p; (void)n; return 1; }
+
 #endif
 
 /* exact-size heap buffer with symbolic contents */
@@ -141,6 +165,10 @@ uint32_t vp_param(uint32_t i) { static const char* nm[4] = {"VP_P0", "VP_P1", "V
 #else
 uint32_t vp_param(uint32_t i) { return i == 0 ? VP_P0 : i == 1 ? VP_P1 : i == 2 ? VP_P2 : VP_P3; }
 #endif
+
+/* behaviour of contract stubs: a concrete per-instance parameter (P1), so that the pointer a stub returns is a single object or null,
+ * never a symbolic mix (CBMC then resolves virtual calls on it) */
+uint32_t vp_choice(void) { return vp_param(1); }
 
 /* entry */
 void vp_run_ctors(void);
